@@ -17,9 +17,10 @@ Not proved (direct oracle + correspondence only): isomorphism of `fromDmrs (from
 stripped source, equality of the second conversion.
 -/
 import Verif.C04.Lemmas
+import Verif.Generated.TablesC04
 
 namespace Verif.C04
-open Verif.Sem
+open Verif.Sem Verif.Tables
 
 /-! ## 1. Every link is justified by the source -/
 
@@ -561,5 +562,86 @@ example : BaseIdsDistinct dogBarks ∧ dogBarks.isWellFormed = true ∧
       .ok (some 10002, some 10002,
         [⟨10000, 10001, "RSTR", "H"⟩, ⟨10002, 10001, "ARG1", "NEQ"⟩]) :=
   ⟨by decide, by decide, by rfl⟩
+
+/-! ## Pins: the constants of the anchored code that the hand-written model mirrors
+
+`Verif/Generated/TablesC04.lean` is regenerated on every run by `harness/c04.py: tables()` from the
+live modules and code objects (`co_consts`, nested code objects included; docstrings, warning and
+exception texts dropped).  The literal copies below are what the model was written against:
+
+* `c04DmrsModuleConsts` — `FIRST_NODE_ID` = `Verif.C04.FIRST_NODE_ID` (`nidAt`); `EQ_POST`, `HEQ_POST`,
+  `H_POST` = `Verif.Sem.EQ_POST/HEQ_POST/H_POST`; `NEQ_POST`, `BARE_EQ_ROLE` = `Verif.C04.NEQ_POST`,
+  `BARE_EQ_ROLE`; `RESTRICTION_ROLE` = `Verif.Sem.RESTRICTION_ROLE` (`quantStarts`, `dIsQuantifier`, `qmapD`);
+  `TOP_NODE_ID` = the `0` of `normalizeTopAndLinks` / `indexOf`.
+* `c04MrsModuleConsts` — `Verif.Sem.INTRINSIC_ROLE/RESTRICTION_ROLE/CONSTANT_ROLE`, `Verif.C04.BODY_ROLE`;
+  `_QUANTIFIER_TYPE` = the sort `"q"` of `EP.baseId`.
+* `c04VariableModuleConsts` — `Verif.C04.HANDLE`, `UNSPECIFIC`; the variable regex is the reason a variable
+  is a (sort, number) pair (`Verif.Sem.Var`).
+* `c04ScopeModuleConsts` — `Verif.Sem.LHEQ/QEQ` (`scStep`, `scRel`); `_UNTENSED_VALUES` = the two strings
+  of `MRS.repRank`.
+* `c04FuncConsts` — `mrs.from_dmrs`: starting vid `0` (`vfac0`) and `'xeipu'` (`nsArgsD`, `IVSorts`);
+  `DMRS.scopes`: starting vid `1` (`DMRS.idToLbl`); `dmrs._mrs_get_top` / `_mrs_to_links`: the indices
+  `0` (`reps[lbl][0]`) and `1` (`eps[1:]`, `len > 1`) of `getTop` / `argLink` / `modLinksOf` (the `2`
+  is a `stacklevel`); `scope.representatives`: `'xeipu'` (`MRS.nsArgs`), `1` (`len(scope) == 1`);
+  `scope._make_representative_priority`: ranks `0/1/2/3`, types `x`/`e`, `TENSE`, positions from `1`
+  (`MRS.repRank`, `MRS.repKey`); `VariableFactory.new`: `vid + 1` (`VFac.new`); `EP.__init__`: default
+  ARG0 `_0`, sort `_` (`EP.baseId`, `EP.type`); `_uniquify_ids`: `_{}` and the counters of `uniquify`.
+* `c04Defaults` — `VariableFactory(starting_vid=1)`, `from_mrs(representative_priority=None)`,
+  `representatives(priority=None)`, `DMRS.arguments(types=None, expressed=None)`.
+A change to any of them stops this theorem from checking: the run reports a broken proof obligation and
+searches for a failing input. -/
+theorem c04_pins :
+    c04DmrsModuleConsts =
+      [("TOP_NODE_ID", "0"), ("FIRST_NODE_ID", "10000"), ("RESTRICTION_ROLE", "RSTR"), ("BARE_EQ_ROLE", "MOD"), ("EQ_POST", "EQ"), ("HEQ_POST", "HEQ"), ("NEQ_POST", "NEQ"), ("H_POST", "H"), ("NIL_POST", "NIL"), ("CVARSORT", "cvarsort")]
+    ∧
+    c04MrsModuleConsts =
+      [("INTRINSIC_ROLE", "ARG0"), ("RESTRICTION_ROLE", "RSTR"), ("BODY_ROLE", "BODY"), ("CONSTANT_ROLE", "CARG"), ("_QUANTIFIER_TYPE", "q")]
+    ∧
+    c04VariableModuleConsts =
+      [("UNSPECIFIC", "u"), ("INDIVIDUAL", "i"), ("INSTANCE_OR_HANDLE", "p"), ("EVENTUALITY", "e"), ("INSTANCE", "x"), ("HANDLE", "h"), ("_variable_re.pattern", "^([-\\w]*[^\\s\\d])(\\d+)$"), ("_variable_re.flags", "32")]
+    ∧
+    c04ScopeModuleConsts =
+      [("LEQ", "leq"), ("LHEQ", "lheq"), ("OUTSCOPES", "outscopes"), ("QEQ", "qeq"), ("_UNTENSED_VALUES", "{,untensed}")]
+    ∧
+    c04FuncConsts =
+      [
+        ("dmrs.from_mrs", []),
+        ("dmrs._mrs_get_top", ["0", "2"]),
+        ("dmrs._mrs_to_nodes", ["2"]),
+        ("dmrs._mrs_to_links", ["2", "0", "1"]),
+        ("mrs.from_dmrs", ["0", "xeipu"]),
+        ("mrs._dmrs_build_maps", []),
+        ("DMRS.scopes", ["1"]),
+        ("DMRS.arguments", []),
+        ("DMRS.scopal_arguments", []),
+        ("DMRS.is_quantifier", []),
+        ("DMRS.quantification_pairs", []),
+        ("dmrs._normalize_top_and_links", []),
+        ("Node.__init__", []),
+        ("scope.representatives", ["xeipu", "1"]),
+        ("scope._make_representative_priority", ["1", "p", "x", "0", "e", "TENSE", "", "2", "1", "3"]),
+        ("scope.conjoin", []),
+        ("scope._descendants", []),
+        ("VariableFactory.__init__", []),
+        ("VariableFactory.new", ["1"]),
+        ("EP.__init__", ["_0", "_"]),
+        ("mrs._uniquify_ids", ["0", "_{}", "1"]),
+        ("MRS.arguments", []),
+        ("MRS.scopal_arguments", []),
+        ("MRS.scopes", []),
+        ("MRS.properties", [])]
+    ∧
+    c04Defaults =
+      [("dmrs.from_mrs", "((None,), None)"), ("DMRS.arguments", "((None, None), None)"), ("DMRS.scopal_arguments", "((None,), None)"), ("Node.__init__", "((None, None, None, None, None, None), None)"), ("scope.representatives", "((None,), None)"), ("VariableFactory.__init__", "((1,), None)"), ("VariableFactory.new", "((None,), None)"), ("EP.__init__", "((None, None, None, None), None)"), ("MRS.arguments", "((None, None), None)"), ("MRS.scopal_arguments", "((None,), None)")] := by
+  refine ⟨?_, ?_, ?_, ?_, ?_, ?_⟩ <;> rfl
+
+/-- the model's own constants, as pinned above. -/
+theorem c04_model_consts :
+    FIRST_NODE_ID = 10000 ∧ Verif.Sem.EQ_POST = "EQ" ∧ Verif.Sem.HEQ_POST = "HEQ" ∧
+    Verif.Sem.H_POST = "H" ∧ NEQ_POST = "NEQ" ∧ BARE_EQ_ROLE = "MOD" ∧
+    Verif.Sem.RESTRICTION_ROLE = "RSTR" ∧ Verif.Sem.INTRINSIC_ROLE = "ARG0" ∧
+    Verif.Sem.CONSTANT_ROLE = "CARG" ∧ BODY_ROLE = "BODY" ∧ HANDLE = "h" ∧ UNSPECIFIC = "u" ∧
+    Verif.Sem.LHEQ = "lheq" ∧ Verif.Sem.QEQ = "qeq" ∧ vfac0.vid = 0 :=
+  ⟨rfl, rfl, rfl, rfl, rfl, rfl, rfl, rfl, rfl, rfl, rfl, rfl, rfl, rfl, rfl⟩
 
 end Verif.C04
